@@ -4,6 +4,16 @@ import sys
 
 sys.path.insert(0, os.path.join(os.path.dirname(os.path.abspath(__file__)), '..', 'tools'))
 import replay
+import kani_twin
+import importlib.util
+
+
+def _unit_module(name):
+    p = os.path.join(os.path.dirname(os.path.abspath(__file__)), 'units', name + '.py')
+    spec = importlib.util.spec_from_file_location(name, p)
+    m = importlib.util.module_from_spec(spec)
+    spec.loader.exec_module(m)
+    return m
 
 
 def replay_c08(failure, tier):
@@ -22,6 +32,51 @@ def thorough_c08(tier):
         out['violations'] = [{'property': 'C08', 'obligation': ['differential: plan differs from every clock run'],
                               'failing_input': r['found']}]
     return out
+
+
+def hash_constants():
+    return {k: '0x%x' % v for k, v in _unit_module('u3_hash').constants().items()}
+
+
+def replay_c12(failure, tier):
+    c = hash_constants()
+    r = replay.kreplay('c12', [c['PM'], c['PA'], c['SM'], c['SA'], 150 if tier == 'quick' else 600])
+    return r.get('found')
+
+
+def extra_c12(tier):
+    """U7: the crate's mixer constants equal the hashlib-derived ones (Kani on the unmodified crate)."""
+    res = kani_twin.run_twins([('src/sharded.rs', 'sharded_twin.rs', ['mixer_constants'])], hash_constants(), timeout=600)
+    r = res['mixer_constants']
+    out = {'obligations': 0, 'cmds': [r['cmd']], 'backends': [], 'failures': [], 'undecided': [], 'functions': []}
+    if r['status'] == 'undecided':
+        out['undecided'].append('Kani twin mixer_constants: ' + str(r.get('detail'))[:500])
+        return out
+    out['obligations'] = r.get('checks') or 4
+    out['solver_s'] = r.get('cbmc_s') or 0.0
+    out['backends'].append('Kani 0.68 / CBMC 6.x: harness kv_twin::mixer_constants on the unmodified crate (compile-time constants: complete), %s checks' % r.get('checks'))
+    out['functions'].append({'function': 'src/sharded.rs::const PRIMARY_MIXER, SECONDARY_MIXER (via multiplicative_hash::new_keyed, real body)',
+                             'obligations': out['obligations'], 'solver_s': out['solver_s'], 'backend': 'kani'})
+    if r['status'] == 'failed':
+        out['failures'].append({'message': 'Kani: ' + '; '.join(r['failed_checks']), 'fn': 'src/sharded.rs::kv_twin::mixer_constants',
+                                'labels': ['C12:mixer-constants-are-sha256-derived'], 'props': ['C12'], 'line': None,
+                                'excerpt': '', 'rendered': '\n'.join(r['failed_checks']), 'probe': False, 'unit': 'u7_kani'})
+    return out
+
+
+def thorough_c12(tier):
+    c = hash_constants()
+    r = replay.kreplay('c12', [c['PM'], c['PA'], c['SM'], c['SA'], 2000], timeout=3000)
+    out = {'bounded': ['native observation of the real sharded cache (directory names incl. the `.kismet_%%04x` format, put location, '
+                       'get probing) vs an independent reimplementation: %d (hash, secondary, n) triples incl. boundary values' % r['evaluations']],
+           'coverage': {'observed_placements': r['evaluations']}}
+    if r.get('found'):
+        out['violations'] = [{'property': 'C12', 'obligation': ['differential: observed placement differs'], 'failing_input': r['found']}]
+    return out
+
+
+def replay_c10(failure, tier):
+    return replay.kreplay('c10', [10 if tier == 'quick' else 60]).get('found')
 
 
 PROPS = {
@@ -47,6 +102,47 @@ PROPS = {
                       'token-level erasure on every run. A failed obligation is replayed by exhaustive native search (<=5 entries quick, <=6 thorough).',
         'technique': 'Verus postcondition == recursive clock spec function, loop invariant over the real scan loop, lemmas by induction; erasure-checked extraction',
     },
+}
+
+PROPS['C12'] = {
+    'units': ['u3_hash'],
+    'extra': extra_c12,
+    'replayer': replay_c12,
+    'thorough': thorough_c12,
+    'assumptions': [
+        'vstd specifications of u64::wrapping_mul / wrapping_add and of `as` casts',
+        'the Verus unit assumes the two mixer constants; the Kani harness on the real crate discharges that assumption on every run',
+        'directory-name formatting (`format_id`, a format! call) is outside both verifiers: bounded native observation only (thorough tier), never counted as proved',
+    ],
+    'bounded': ['sharded::format_id (format!(".kismet_{:04x}")): not under contract; observed natively in the thorough tier only'],
+    'not_covered': ['probe order and storage location at the filesystem level (get/touch/set/put of sharded::Cache) are part of unit U5'],
+    'level_text': 'Unbounded proof of the arithmetic: Verus shows on the verbatim bodies of reduce/new/mix/map and '
+                  'sharded::Cache::{other_shard_id, shard_ids} that the two shard ids equal the documented multiply-add-then-scale '
+                  'function of (hash, secondary hash, n) with the SHA-256-derived constants, are < n and distinct, for every 64-bit '
+                  'hash pair and every n >= 2. Kani/CBMC proves on the unmodified crate that the compile-time mixer constants equal '
+                  'the values the check derives with hashlib.',
+    'level_note': 'Trusted: Verus/Z3, Kani/CBMC, vstd wrapping-arithmetic specs, hashlib. format_id is only observed (bounded, thorough tier). '
+                  'Filesystem-level probe order is carried by the sharded unit (U5) when built.',
+    'technique': 'Verus postconditions == spec functions (nonlinear + bit-vector lemmas) on extracted code; Kani harness for compile-time constants',
+}
+
+PROPS['C10'] = {
+    'units': ['u2_trigger'],
+    'replayer': replay_c10,
+    'assumptions': [
+        'ThreadRng::next_u64 may return any u64 (external_body stub without postcondition)',
+        'the thread-local RefCell<u64> is modelled by the ghost field w.counter (T5); one thread, as the property states',
+        'regenerate is verified for partial correctness only (its loop terminates with probability 1)',
+    ],
+    'not_covered': ['that CacheDir::{set,put} run the trigger and the whole maintenance before their own insertion, and that plain::Cache::new '
+                    'uses capacity/3, are obligations of the filesystem unit U4 (listed there when built)'],
+    'level_text': 'Unbounded proof: Verus shows on the verbatim bodies of trigger::{regenerate, observe, PeriodicTrigger::{new,event,weighted_event}} '
+                  'that scale == ceil(u64::MAX/max(period,1)) and that each observation is the countdown transition observe_step for every '
+                  'counter value and every random draw; lemma_fire_within_period then proves that no run of `period` consecutive events is '
+                  'free of a firing, and lemma_growth_bound the k + period population bound.',
+    'level_note': 'Trusted: Verus/Z3; the closure passed to COUNTER.with is lifted to a nested fn (T4) and the RefCell is a ghost field (T5), both checked by erasure; '
+                  'random source unconstrained. Replay is best effort (draws cannot be forced from outside the crate).',
+    'technique': 'Verus postconditions == transition spec; inductive lemma over runs of non-firing events; nonlinear arithmetic lemmas',
 }
 
 NOT_CLAIMED = {}
